@@ -115,5 +115,10 @@ func NewValueObject(fields map[string]*Value) *Value {
 }
 
 func (self ValueObject) IntoAnyObject() *Value {
-	return NewValueAnyObject(self.FieldsInternal)
+	// The any-object gets a field table of its own: `set` on it must not retype a field of the typed object.
+	fields := make(map[string]*Value, len(self.FieldsInternal))
+	for key, field := range self.FieldsInternal {
+		fields[key] = field
+	}
+	return NewValueAnyObject(fields)
 }
